@@ -481,6 +481,9 @@ RULE = ("multi-accept workflow graphs (overlapping exact types, a subclass event
 from vmc.tables import _ROUND6 as _R6  # noqa: E402
 
 RULE += _R6["C02"]
+from vmc.tables import _ROUND7 as _R7  # noqa: E402
+
+RULE += _R7["C02"]
 
 
 
